@@ -31,7 +31,7 @@ var vfProfiles = map[string]*vfProfile{
 	"C04": {id: "C04", pressure: true, ttlPct: 20, w: map[string]int{"set": 45, "del": 8, "get": 8, "step": 18, "wait": 2, "park": 2, "advance": 4, "sweep": 4, "clear": 4, "clearlive": 3}},
 	"C05": {id: "C05", pressure: false, ttlPct: 25, w: map[string]int{"set": 35, "del": 16, "get": 16, "getttl": 2, "step": 20, "wait": 8, "advance": 4, "sweep": 3}},
 	"C06": {id: "C06", roomy: true, ttlPct: 25, w: map[string]int{"set": 35, "del": 8, "get": 22, "getttl": 5, "iter": 4, "step": 16, "wait": 6, "park": 2, "advance": 6}},
-	"C07": {id: "C07", roomy: true, ttlPct: 85, w: map[string]int{"set": 30, "del": 5, "get": 22, "getttl": 10, "iter": 5, "step": 22, "wait": 2, "advance": 22, "sweep": 4}},
+	"C07": {id: "C07", roomy: true, ttlPct: 85, w: map[string]int{"set": 30, "del": 5, "get": 22, "getttl": 10, "iter": 5, "step": 22, "wait": 2, "advance": 22, "sweep": 4, "sweepwith": 4}},
 	"C09": {id: "C09", pressure: true, ttlPct: 0, w: map[string]int{"set": 40, "get": 35, "del": 4, "step": 25, "wait": 2}},
 	"C13": {id: "C13", pressure: true, ttlPct: 35, w: map[string]int{"set": 38, "del": 10, "get": 8, "iter": 5, "step": 18, "wait": 5, "advance": 8, "sweep": 7, "quiesce": 1, "clear": 1}},
 	"C14": {id: "C14", roomy: true, ttlPct: 85, w: map[string]int{"set": 30, "del": 5, "get": 6, "step": 14, "wait": 3, "advance": 14, "sweep": 10, "sweepwith": 10, "scenario": 6, "quiesce": 2}},
@@ -263,9 +263,11 @@ func (g *vfGen) sweepWith(t *rapid.T, s *vfSM) vfOp {
 		if len(ks) > 0 && rapid.IntRange(0, 3).Draw(t, "progexp") > 0 {
 			k = ks[rapid.IntRange(0, len(ks)-1).Draw(t, "progkey")]
 		}
-		switch rapid.IntRange(0, 9).Draw(t, "progop") {
+		switch rapid.IntRange(0, 10).Draw(t, "progop") {
 		case 0:
 			prog = append(prog, vfOp{Kind: "get", Key: k})
+		case 10:
+			prog = append(prog, vfOp{Kind: "iter"}) // enumerate while the sweep is half-way through its bucket
 		case 1, 2:
 			prog = append(prog, vfOp{Kind: "del", Key: k})
 			budget--
